@@ -282,6 +282,46 @@ def requested_args_ok(w, recipes, i, obj):
     return True
 
 
+def sub_recipes(recipes, i, out=None):
+    """Indices of the recipes that recipe i is (transitively) built from."""
+    out = set() if out is None else out
+    rec = recipes[i]
+    k = rec[0]
+    js = []
+    if k == "Binary":
+        js = [rec[2], rec[3]]
+    elif k in ("Unary", "Reduce", "Lambda"):
+        js = [rec[2]]
+    elif k == "Subs":
+        js = [rec[1]] + [j for n, j in rec[2]]
+    elif k == "Stack":
+        js = list(rec[2])
+    elif k == "Product":
+        js = list(rec[1])
+    for j in js:
+        if j not in out:
+            out.add(j)
+            sub_recipes(recipes, j, out)
+    return out
+
+
+def argument_objects(w, recipes):
+    """The objects denoted by the argument recipes of the live handles, rebuilt under reflect: hash-consing
+    returns the existing object where one is alive.  The hash-consing key of a live term retains its original
+    arguments (for binder terms these are not the renamed _ast_values), so such objects are legitimately alive."""
+    import funsor.interpretations as I
+
+    objs = []
+    for i in list(w.handles):
+        for j in sub_recipes(recipes, i):
+            try:
+                with I.reflect:
+                    objs.append(make(w, recipes, j))
+            except Exception:  # noqa: BLE001
+                pass
+    return objs
+
+
 def track(w, key, obj):
     """weak references to the term and to the variables inside its frozenset arguments
     (a helper function so that no loop variable keeps them alive in the caller)."""
@@ -431,13 +471,19 @@ class C07(Prop):
                 elif act == "gc":
                     gc.collect()
                     live = reachable_keys()
+                    # objects whose own recipe is an argument of a live handle: the hash-consing key of a live binder
+                    # term retains its original (un-renamed) arguments, so these are reachable although not via _ast_values
+                    live_ids = {id(r()) for k, r in w.weak if (k[1] if k and k[0] == "inner" else k) in live and r() is not None}
+                    arg_objs = argument_objects(w, recipes)
+                    live_ids |= {id(o) for o in arg_objs}
                     for key, ref in w.weak:
                         k0 = key[1] if key and key[0] == "inner" else key
-                        if k0 not in live and ref() is not None and not any(ref() is h for h in w.handles.values()) and not alive_elsewhere(ref(), w):
+                        if k0 not in live and ref() is not None and id(ref()) not in live_ids and not any(ref() is h for h in w.handles.values()) and not alive_elsewhere(ref(), w):
                             if key[0] in ("Type",):
                                 continue
                             # generation of arrays may differ: an object is legitimately alive only if reachable
                             raise Violation("not-reclaimed", f"step {si}: object for key {key} is still alive after all handles were dropped and gc.collect(): {self.describe(case)}")
+                    arg_objs = None
                     w.weak = [(k_, r_) for k_, r_ in w.weak if r_() is not None]
                 elif act == "realloc":
                     slot = step[1]
